@@ -46,13 +46,18 @@ def plainB (env : Env) (fmt : Fmt) (lv : List String) : Nat → TyExpr → Bool
           (!fd.yamlSkip &&
             (if fd.yamlInline then isNull (zeroVal env f fd.ty) && (fmt == .yaml || skipOf fmt fd)
                 && !((s.fields.filter (keyed fmt)).map (keyOf fmt)).contains fd.yamlKey
-             else !skipOf fmt fd && keyOf fmt fd == fd.yamlKey && plainB env fmt lv f fd.ty))
+             else if skipOf fmt fd then
+               -- rendered by the other format only (`ServiceConfig.Name`: `json:"-"`): this rendering leaves it out, the
+               -- decoder must not find its key under another field's name
+               !((s.fields.filter (keyed fmt)).map (keyOf fmt)).contains fd.yamlKey
+             else keyOf fmt fd == fd.yamlKey && plainB env fmt lv f fd.ty))
     | none => noCustom env n && match findNamed env.named n with
       | some e => plainB env fmt lv f e
       | none => false
 
-/-- is the field left out of the rendering? (the encoder's own test for that format) -/
-def omittedF (env : Env) (fmt : Fmt) (fd : FieldDesc) (v : Val) : Bool := omitOf fmt fd && zeroOf env fmt fd.ty v
+/-- is the field left out of the rendering? (skipped by this format's tag, or the encoder's own omitempty test) -/
+def omittedF (env : Env) (fmt : Fmt) (fd : FieldDesc) (v : Val) : Bool :=
+  skipOf fmt fd || (omitOf fmt fd && zeroOf env fmt fd.ty v)
 
 def Stable (env : Env) (fmt : Fmt) (L : Leaves) : Nat → TyExpr → Val → Prop
   | 0, _, _ => False
